@@ -12,7 +12,14 @@ A case is a SESSION: one state object and one or more consecutive `fit` calls on
 its own arguments: data (N rows incl. N = 0, container form), pos/neg batch sizes, `callbacks=` container form (None / list / tuple /
 CallbackList / iterator; a later call may pass the very same container object again), time, scheduler, starting_epoch/epochs,
 stop injections, and what the caller does to the flag before it (nothing / `stop_training = True` / `= False`).
-A second stream exercises the LambdaCallback constructor (arity by `inspect.signature`, non-callables, None)."""
+A second stream exercises the LambdaCallback constructor (arity by `inspect.signature`, non-callables, None).
+
+Argument forms (round 5): every integer option of `fit` (epochs, pos_batch_size, neg_batch_size, k, starting_epoch) and of the state
+constructors (num_visible, num_hidden, num_aux) is handed over in a form drawn from the case's `qc.Ints(iseed)` stream (Python int,
+numpy integer scalars, 0-d integer ndarray, 0-d integer tensor), every boolean option (`time`, `progbar`, the constructors' `gpu`) in a
+form drawn from `qc.Flags(fseed)`; the first `npos` arguments of `fit` are passed positionally in the documented order; inside a session
+the object made for (option, value) is handed over AGAIN by later calls with the same value (a caller re-using its configuration
+objects).  The model is told the VALUES; verdicts are by effect (protocol, counts), never by the type of anything."""
 import contextlib
 import hashlib
 import io
@@ -50,7 +57,10 @@ RULE = ("case = session on one state object (kind) of 1..3 consecutive fit calls
         "function) or CallbackBase subclass overriding a subset of the methods; stop raised before the update (wrapped "
         "compute_batch_gradients) or after it (inside optimizer.step); N = 0 (no batches; positive state, neg = pos); plus a constructor "
         "stream: LambdaCallback(six arguments each None / callable with 0..4 parameters in 9 callable forms / non-callable) with the "
-        "expected outcome from the parameter count BY CONSTRUCTION; "
+        "expected outcome from the parameter count BY CONSTRUCTION; integer options (epochs, pos/neg_batch_size, k in 1..2, starting_epoch, "
+        "constructor sizes) as Python int / np.int64 / np.int32 / np.intp / np.uint8 / 0-d ndarray / 0-d tensor from the case's seeded stream "
+        "(`iseed`), the same object again in a later call of the session when the value recurs; `time`, `progbar` (both truth values), `gpu` as "
+        "bool / int / np.bool_ / numpy comparison result / 0-d ndarray / 0-d tensor (`fseed`); the first npos in 1..15 arguments of fit positional; "
         "non-trivial iff some call begins at least one epoch and (a stop is injected or there are >= 2 batches or >= 2 callbacks), or a "
         "constructor case with >= 1 non-None argument; distinct by hash of the case")
 EXTRA_TRUSTED = [
@@ -111,13 +121,32 @@ def ref_events(start, epochs, nb, stop0, requested):
 
 
 # ------------------------------------------------------------------ building the real objects
-def make_state(kind, rng):
+def make_state(kind, rng, it=None, gpu=False):
+    """`it`: the case's integer-form stream (qc.Ints): the constructor sizes are handed over as the objects it yields (the constructors
+    convert with int()); `gpu`: the falsy object handed as `gpu=`"""
     n, h = 2, rng.choice([1, 2])
+    fam = int_family(it.iseed) if it is not None else None
+    iv = (lambda v: it(v, fam)[0]) if it is not None else (lambda v: v)
     if kind == "pos":
-        return qc.make_positive(n, h, qc.rand_rbm_params(rng, n, h, 0.5))
+        return qc.make_positive(iv(n), iv(h), qc.rand_rbm_params(rng, n, h, 0.5), gpu=gpu)
     if kind == "cplx":
-        return qc.make_complex(n, h, qc.rand_rbm_params(rng, n, h, 0.5), qc.rand_rbm_params(rng, n, h, 0.5))
-    return qc.make_density(n, h, 1, qc.rand_prbm_params(rng, n, h, 1, 0.5), qc.rand_prbm_params(rng, n, h, 1, 0.5))
+        return qc.make_complex(iv(n), iv(h), qc.rand_rbm_params(rng, n, h, 0.5), qc.rand_rbm_params(rng, n, h, 0.5), gpu=gpu)
+    return qc.make_density(iv(n), iv(h), iv(1), qc.rand_prbm_params(rng, n, h, 1, 0.5), qc.rand_prbm_params(rng, n, h, 1, 0.5), gpu=gpu)
+
+
+# positional order of `fit` as documented (neural_state.py:521-537; complex_wavefunction.py / density_matrix.py have the same order,
+# positive_wavefunction.py has no `input_bases` parameter: given by keyword it lands in **kwargs and is ignored)
+FIT_ORDER = ("data", "epochs", "pos_batch_size", "neg_batch_size", "k", "lr", "input_bases", "progbar", "starting_epoch", "time",
+             "callbacks", "optimizer", "optimizer_args", "scheduler", "scheduler_args")
+# forms of the integer options the CLEAN fit accepts (probed: all of them, bit-identical results; a Python float is rejected with TypeError)
+FIT_INT_FORMS = qc.INT_FORMS
+
+
+def int_family(iseed):
+    """forms used inside ONE case: a 0-d ndarray and a 0-d tensor are never handed over side by side (`np.array(3) - torch.tensor(1)` raises
+    TypeError inside NumPy/Torch, so any arithmetic between two options -- which the property does not forbid -- would be an alarm)"""
+    drop = "t0d" if (iseed or 0) % 2 else "np0d"
+    return tuple(f for f in FIT_INT_FORMS if f != drop)
 
 
 def param_hash(st):
@@ -363,7 +392,12 @@ def one_case(ctx, case):
     ctx.current_case = case
     kind, lam, runs = case["kind"], case["lambda"], case["runs"]
     rng = random.Random(case["dseed"])
-    st = make_state(kind, rng)
+    # argument forms: cases stored before round 5 carry neither seed -> plain Python ints / bool singletons by keyword, as before
+    fl, it = qc.Flags(case.get("fseed")), qc.Ints(case.get("iseed"))
+    it.iseed = case.get("iseed")
+    gpu_obj, gpu_d = fl(False)
+    st = make_state(kind, rng, it, gpu_obj)
+    ctx.count(f"gpu=False given as {gpu_d['form']}")
     torch.manual_seed(case["dseed"])
     hold = _Holder()
     objs = {}
@@ -389,7 +423,7 @@ def one_case(ctx, case):
              "hasBases": kind != "pos", "callbacks": {"form": r["cb_form"], "items": r["cbs"]}, "timer": r["time"],
              "hasSched": r["sched"], "req_cb": [[i, ev] for i, ev in r["inject_cb"]],
              "req_mid": [[e, b] for e, b in r["inject_mid"] + r.get("inject_pre", [])]} for r in runs])
-    sess = {"stop": False, "container": None, "container_key": None, "nontriv": False, "sample": None}
+    sess = {"stop": False, "container": None, "container_key": None, "nontriv": False, "sample": None, "fl": fl, "it": it, "optobjs": {}}
     ctx.count(f"calls_per_session={len(runs)}")
     for r_idx, run in enumerate(runs):
         m = None
@@ -424,7 +458,7 @@ def one_call(ctx, case, kind, st, rng, hold, objs, run, r_idx, sess, m, specs):
     if run.get("bad_stop", True):
         before_flag = st._stop_training if hasattr(st, "_stop_training") else st.stop_training
         refused_ok = True
-        for bad in (1, 0, "yes", None, np.True_, np.False_, [True]):
+        for bad in (1, 0, "yes", None, np.True_, np.False_, [True], np.array(True), torch.tensor(False), np.float64(1.0) > 0.5):
             try:
                 st.stop_training = bad
                 refused_ok = False
@@ -434,6 +468,33 @@ def one_call(ctx, case, kind, st, rng, hold, objs, run, r_idx, sess, m, specs):
         ctx.oracle("a refused stop request (non-bool) raises ValueError and leaves the flag unchanged", bool(refused_ok), ctx.current_case,
                    detail={"flag_before": bool(before_flag), "flag_after": repr(st.stop_training)}, sig=f"{kind}/refused-stop-request",
                    theorem="C12_sticky / C12_stopped_run_is_noop (the flag is only changed by a valid request)")
+    # ---- the option objects of this call
+    fl, it = sess.get("fl") or qc.Flags(None), sess.get("it") or qc.Ints(None)
+    fam = int_family(getattr(it, "iseed", None))
+
+    def opt_obj(name, value):
+        """integer option `name` = value in the form the case's stream yields; the FIRST object made for (name, value) in this session is
+        handed over again by every later call with that value (the caller keeps its configuration objects).  No UNSIGNED numpy type for the
+        epoch numbers and batch sizes: np.uint8(1) - np.uint8(3) wraps to 254 and -4 // np.uint8(2) raises OverflowError inside NumPy
+        itself, so harmless rewrites (`-(-N // pos_batch_size)` for the ceiling: benign/C12_1) would be alarms; `k` is only iterated over"""
+        obj, d = it(value, fam if name == "k" else tuple(f for f in fam if f != "np.uint8"))
+        if (name, int(value)) in sess["optobjs"]:
+            obj, d = sess["optobjs"][(name, int(value))]
+            if d["form"] in ("np0d", "t0d"):
+                ctx.count("same_mutable_option_object_again")
+        else:
+            sess["optobjs"][(name, int(value))] = (obj, d)
+        ctx.count(f"{name} given as {d['form']}")
+        return obj
+
+    kk, progbar, npos = run.get("k", 1), run.get("progbar", False), run.get("npos", 1)
+    epochs_o, B_o = opt_obj("epochs", epochs), opt_obj("pos_batch_size", B)
+    neg_o = None if neg is None else opt_obj("neg_batch_size", neg)
+    k_o, start_o = opt_obj("k", kk), opt_obj("starting_epoch", start)
+    (time_o, time_d), (prog_o, prog_d) = fl(timer), fl(progbar)
+    ctx.count(f"time={timer} given as {time_d['form']}")
+    ctx.count(f"progbar={progbar} given as {prog_d['form']}")
+    ctx.count(f"fit_positional_prefix={npos}")
     stop0 = (sess["stop"] if pre is None else pre)  # expected flag at entry: left by the previous call unless reassigned
     flag_at_entry = bool(st.stop_training)
     h_before = param_hash(st)
@@ -453,12 +514,18 @@ def one_call(ctx, case, kind, st, rng, hold, objs, run, r_idx, sess, m, specs):
     buf = io.StringIO()
     err = None
     st.compute_batch_gradients = cbg  # instance attribute shadows the method for this call only
+    values = [data_obj, epochs_o, B_o, neg_o, k_o, 0.1, bases_a, prog_o, start_o, time_o, cb_arg, make_optimizer_class(rec, st),
+              {"weight_decay": 0.05}, (make_scheduler_class(rec) if sched else None), None]
+    named = [(nm, v) for nm, v in zip(FIT_ORDER, values) if not (kind == "pos" and nm == "input_bases")]
+    npos = min(npos, len(named))
+    kwargs = {nm: v for nm, v in named[npos:] if nm != "scheduler_args"}
+    if kind == "pos":
+        kwargs["input_bases"] = None
+    values = [v for _, v in named]
     try:
-        with contextlib.redirect_stdout(buf):
-            st.fit(data_obj, epochs=epochs, pos_batch_size=B, neg_batch_size=neg, k=1, lr=0.1, input_bases=bases_a, progbar=False,
-                   starting_epoch=start, time=timer, callbacks=cb_arg,
-                   optimizer=make_optimizer_class(rec, st), optimizer_args={"weight_decay": 0.05},
-                   scheduler=(make_scheduler_class(rec) if sched else None))
+        # a progress bar (progbar truthy, or -- `progbar is False` in the code -- a falsy object other than the singleton) goes to stderr
+        with contextlib.redirect_stdout(buf), contextlib.redirect_stderr(io.StringIO()):
+            st.fit(*values[:npos], **kwargs)
     except Exception as e:  # fit is not expected to raise on these inputs
         err = f"{type(e).__name__}: {e}"
     finally:
@@ -772,6 +839,11 @@ def make_run(rng, start, epochs, N, B, cbs, timer, sched, icb, imid, pre, ipre=N
         run["neg"] = rng.choice([None, 0, B])
     if ipre:
         run["inject_pre"] = ipre
+    # round 5: the CD step count (no effect on the protocol), the progress-bar option in both truth values and the number of leading
+    # arguments of `fit` that are passed positionally (1 = the data only ... 15 = all, in the documented order)
+    run["k"] = rng.choice([1, 1, 2])
+    run["progbar"] = rng.random() < 0.3
+    run["npos"] = rng.choice(range(2, len(FIT_ORDER) + 1)) if rng.random() < 0.5 else 1
     return run
 
 
@@ -804,6 +876,8 @@ def gen_session(rng, ncalls=None, empty_ok=False):
         nb = -(-N // B)
         start = rng.choice([1, 1, 0, -2, 3, 7])
         epochs = start + rng.choice([-1, 0, 0, 1, 1, 2])
+        if r and rng.random() < 0.4:  # the caller repeats the call with the same epoch range (and, with the forms of round 5, the same option objects)
+            start, epochs = runs[-1]["start"], runs[-1]["epochs"]
         if r and rng.random() < 0.5:
             cbs = list(runs[-1]["cbs"])
         else:
@@ -835,6 +909,15 @@ def gen_session(rng, ncalls=None, empty_ok=False):
 
 
 def gen_cases(ctx, thorough):
+    """every fit case carries the seeds of its argument-form streams (qc.Flags / qc.Ints); about one case in eight keeps plain Python values"""
+    rng = ctx.rng
+    for case in _gen_cases(ctx, thorough):
+        if "ctor" not in case and rng.random() < 0.875:
+            case["fseed"], case["iseed"] = rng.randrange(2 ** 31), rng.randrange(2 ** 31)
+        yield case
+
+
+def _gen_cases(ctx, thorough):
     rng = ctx.rng
     for (start, epochs, N, B) in base_configs(ctx, thorough):
         nb = -(-N // B)
